@@ -2090,6 +2090,31 @@ impl Block {
                         blockchain.blocks.get(&previous_block.previous_block_hash)
                     {
                         //
+                        // the routing lottery below reads that block's transactions. if they
+                        // have already been dropped from memory (prune_after_blocks = 1) the
+                        // block is read back from disk, as the validating path does before
+                        // it winds a block -- otherwise producer and validator disagree on
+                        // who is paid
+                        //
+                        let mut reloaded_block: Option<Block> = None;
+                        if previous_previous_block.block_type == BlockType::Pruned {
+                            if let Ok(mut block) = storage
+                                .load_block_from_disk(
+                                    storage
+                                        .generate_block_filepath(previous_previous_block)
+                                        .as_str(),
+                                )
+                                .await
+                            {
+                                if block.generate().is_ok() {
+                                    reloaded_block = Some(block);
+                                }
+                            }
+                        }
+                        let previous_previous_block =
+                            reloaded_block.as_ref().unwrap_or(previous_previous_block);
+
+                        //
                         // half to treasury (capped)
                         //
                         // we sanity check that the fees in the block are not greater than 1.5x the total
